@@ -200,12 +200,16 @@ def Mask.plane? : Mask → Nat → Option Plane
   | .fltLabel ps, i => ps[i]?.map .fltLabel
   | .fltStack ps, i => ps[i]?.map .fltStack
 
-/-- `np.any(frm)` -/
-def Plane.any : Plane → Bool
+/-- `np.around(x * float(max_fractional_value)).astype(uint8)` -/
+def quantise (mfv : Nat) (x : Rat) : Nat := (roundHalfEven (x * (mfv : Rat))).toNat
+
+/-- `np.any(frm)` on the occupancy array: integer planes as they are, float planes after quantisation
+    (a fraction that rounds to zero does not make a plane non-empty) -/
+def Plane.any (mfv : Nat) : Plane → Bool
   | .intLabel px => px.any (· != 0)
   | .intStack px => px.any (fun ch => ch.any (· != 0))
-  | .fltLabel px => px.any (· != 0)
-  | .fltStack px => px.any (fun ch => ch.any (· != 0))
+  | .fltLabel px => px.any (fun x => quantise mfv x != 0)
+  | .fltStack px => px.any (fun ch => ch.any (fun x => quantise mfv x != 0))
 
 /-- `pixel_array[:, :, k]` of one plane of a stacked array -/
 def channel {α} (k : Nat) (px : List (List α)) : Except ErrKind (List α) :=
@@ -216,9 +220,6 @@ def channel {α} (k : Nat) (px : List (List α)) : Except ErrKind (List α) :=
 /-- stretch binary values to the fractional range: `segment_array * max_fractional_value`, skipped when it is 1 -/
 def stretch (t : SegType) (mfv : Nat) (b : List Nat) : List Nat :=
   if t = .fractional ∧ mfv ≠ 1 then b.map (· * mfv) else b
-
-/-- `np.around(x * float(max_fractional_value)).astype(uint8)` -/
-def quantise (mfv : Nat) (x : Rat) : Nat := (roundHalfEven (x * (mfv : Rat))).toNat
 
 /-- `_get_segment_pixel_array`: the stored pixels of segment `s` in one plane -/
 def segPlane (segs : List Nat) (t : SegType) (mfv : Nat) (s : Nat) : Plane → Except ErrKind (List Nat)
@@ -246,17 +247,17 @@ structure Frame where
   px : List Nat
   deriving Repr, DecidableEq, Inhabited
 
-/-- `np.any(pixel_array[i])` -/
-def planeNonEmpty (arr : Mask) (i : Nat) : Bool :=
+/-- `np.any(occupied_array[i])` -/
+def planeNonEmpty (arr : Mask) (mfv : Nat) (i : Nat) : Bool :=
   match arr.plane? i with
-  | some pl => pl.any
+  | some pl => pl.any mfv
   | none => false
 
 /-- `_get_nonempty_plane_indices` + the re-filtering of `plane_sort_index`:
     returns (omit_empty_frames after the "all empty" fallback, planes to visit in order) -/
-def planOrder (arr : Mask) (omt : Bool) (order : List Nat) : Bool × List Nat :=
+def planOrder (arr : Mask) (mfv : Nat) (omt : Bool) (order : List Nat) : Bool × List Nat :=
   if omt then
-    let nonempty := (List.range arr.numPlanes).filter (planeNonEmpty arr)
+    let nonempty := (List.range arr.numPlanes).filter (planeNonEmpty arr mfv)
     if nonempty = [] then (false, order) else (true, order.filter (· ∈ nonempty))
   else (false, order)
 
@@ -280,7 +281,7 @@ def segmentsIterable (t : SegType) (segs : List Nat) : List (Option Nat) :=
 /-- frames in loop order -/
 def storedFrames (arr : Mask) (segs : List Nat) (t : SegType) (mfv : Nat) (omt : Bool) (order : List Nat) :
     Except ErrKind (List Frame) := do
-  let (omt', ord) := planOrder arr omt order
+  let (omt', ord) := planOrder arr mfv omt order
   let cells := (segmentsIterable t segs).flatMap fun sg => ord.map fun p => (sg, p)
   let fr ← mapE (fun c => loopBody arr segs t mfv omt' c.1 c.2) cells
   pure (fr.filterMap id)
